@@ -81,6 +81,9 @@ fn visit_lits(q: &mut Query, f: &mut dyn FnMut(&'static str, &mut Expr)) {
         for i in &mut p.items {
             ex(&mut i.expr, kind, f);
         }
+        for (e, _) in &mut p.order {
+            ex(e, if kind == "with_item" { "with_order_by" } else { "return_order_by" }, f);
+        }
         if let Some(s) = &mut p.skip {
             ex(s, "skip", f);
         }
@@ -151,6 +154,31 @@ fn replace_lit(q: &Query, idx: usize, new: Expr) -> Query {
         i += 1;
     });
     q
+}
+
+/// Sort keys that contain a literal (the C01 grammar only sorts by plain properties). The LIMIT 1
+/// after the sort makes the effect of the key visible in the row set, so no assumption about the
+/// order of ties is needed.
+fn order_by_queries() -> Vec<(&'static str, Query)> {
+    let mul = |a: Expr, b: Expr| Expr::Arith(ArOp::Mul, Box::new(a), Box::new(b));
+    let m = |l: &str| Clause::Match { optional: false, pats: vec![PathPat::node(NodePat::v("n").l(l))], where_: None };
+    let mut out = vec![];
+    for (desc, dn) in [(false, "asc"), (true, "desc")] {
+        let mut w = Proj::of(vec![(var("n"), None)]);
+        w.order = vec![(mul(prop("n", "p"), lit_i(1)), desc)];
+        w.limit = Some(lit_i(1));
+        out.push((if desc { "with_order_by_expr_desc" } else { "with_order_by_expr_asc" }, Query::new(vec![m("A"), Clause::With(w), Clause::Return(Proj::of(vec![(prop("n", "p"), Some("v"))]))])));
+        let mut w = Proj::of(vec![(prop("n", "p"), Some("v"))]);
+        w.order = vec![(mul(var("v"), lit_i(1)), desc)];
+        w.limit = Some(lit_i(1));
+        out.push((if desc { "with_order_by_alias_expr_desc" } else { "with_order_by_alias_expr_asc" }, Query::new(vec![m("A"), Clause::With(w), Clause::Return(Proj::of(vec![(var("v"), None)]))])));
+        let mut r = Proj::of(vec![(prop("n", "p"), Some("v"))]);
+        r.order = vec![(mul(prop("n", "p"), lit_i(1)), desc)];
+        r.limit = Some(lit_i(1));
+        out.push((if desc { "return_order_by_expr_desc" } else { "return_order_by_expr_asc" }, Query::new(vec![m("A"), Clause::Return(r)])));
+        let _ = dn;
+    }
+    out
 }
 
 fn values() -> Vec<LV> {
@@ -233,6 +261,9 @@ fn main() {
         let reads = gen::queries(false);
         let stride = if thorough { 1 } else { 8 };
         let mut qs: Vec<(String, Query, bool)> = reads.into_iter().step_by(stride).map(|g| (g.name, g.q, false)).collect();
+        for (name, q) in order_by_queries() {
+            qs.push((name.to_string(), q, false));
+        }
         for s in gen_write::statements() {
             qs.push((s.name.to_string(), s.q, true));
         }
